@@ -9,8 +9,6 @@ Open Scope N_scope.
 Lemma tie_qcmaker_append c v m : gen_qcmaker_append c v m = qm_append c m v.
 Proof.
   unfold gen_qcmaker_append, qm_append. destruct m as [w vs us].
-  gmunf; gunf; unfold set_qm_weight, set_qm_votes, set_qm_used; cbn [qm_weight qm_votes qm_used].
-  destruct (memN (v_author v) us); cbn [fst snd]; [reflexivity|].
-  cbn [qm_weight qm_votes qm_used].
-  destruct (quorum c <=? w + stake c (v_author v)); reflexivity.
+  gmunf; gunf; unfold set_qm_weight, set_qm_votes, set_qm_used; cbn [qm_weight qm_votes qm_used fst snd].
+  repeat (tsplit1; cbn [qm_weight qm_votes qm_used fst snd negb]); tdone; f_equal; tdone.
 Qed.
